@@ -3,6 +3,7 @@ package main
 // Engine: loading /repo, contract lookup, per-function VC generation.
 
 import (
+	"encoding/json"
 	"fmt"
 	"go/ast"
 	"go/constant"
@@ -37,6 +38,7 @@ type Engine struct {
 	byName        map[string][]*types.Package
 	globals       map[*types.Var]*ssa.Global
 	notes         []string
+	pinnedLocals  map[string][]string // function key -> locals in declaration order on the tree the contracts were written for
 	contractFiles []string
 }
 
@@ -151,6 +153,9 @@ func loadEngine() (*Engine, error) {
 			return nil, err
 		}
 		e.contractFiles = append(e.contractFiles, ext)
+	}
+	if data, err := os.ReadFile(filepath.Join(verifRoot(), "contracts", "locals.json")); err == nil {
+		json.Unmarshal(data, &e.pinnedLocals)
 	}
 	// implicit lock-context preconditions
 	for key, srcs := range e.cf.LockCtx {
